@@ -1,6 +1,8 @@
 package main
 
 import (
+	"strconv"
+
 	"github.com/privacybydesign/gabi"
 	"github.com/privacybydesign/gabi/big"
 	"github.com/privacybydesign/gabi/rangeproof"
@@ -163,6 +165,30 @@ func permutations(n int) [][]int {
 	return r
 }
 
+// splicedSubProofOps: a range sub-proof made in one session carried by a proof of another session,
+// filed under every index there is (hidden, disclosed, unused, beyond the bases): whatever a proof
+// carries is bound to its session or the proof is refused.
+func splicedSubProofOps(g *Rng, kp *KeyPair) []Op {
+	secret := randSecret(g)
+	donor := buildSession(g, []builderSpec{{kp: kp, rng: true}}, secret, false)
+	rps, _ := donor.trees[0].(T)["rangeproofs"].(T)
+	if rps == nil || rps["1"] == nil {
+		return nil
+	}
+	var out []Op
+	for _, issig := range []bool{false, true} {
+		s := buildSession(g, []builderSpec{{kp: kp}}, secret, issig)
+		for k := -1; k <= len(kp.pk.R)+1; k++ {
+			t2 := cloneTree(any(s.trees)).([]any)
+			t2[0].(T)["rangeproofs"] = T{strconv.Itoa(k): cloneTree(rps["1"])}
+			o := listOp(s.keys, t2, s.ctx, s.nonce, s.issig, nil, "spliced-range-subproof", "reject")
+			o["fkey"] = "C02/spliced-range-subproof"
+			out = append(out, o)
+		}
+	}
+	return out
+}
+
 func genC02(g *Rng, tier string, emit func(Op)) {
 	ka, kb := fixedKey("k1024a", true), fixedKey("k1024b", true)
 	pool := []*KeyPair{ka, kb}
@@ -173,6 +199,9 @@ func genC02(g *Rng, tier string, emit func(Op)) {
 	}
 	for _, k := range pool {
 		emit(declKey(k))
+	}
+	for _, o := range splicedSubProofOps(g, ka) {
+		emit(o)
 	}
 	var prev *session
 	for si := 0; si < nsess; si++ {
